@@ -42,8 +42,8 @@ import (
 
 func failf(sig, format string, a ...any) { vsched.Fail(sig, format, a...) }
 
-var contents = map[string]string{"A3": "aaa", "B5": "bbbbb", "C8": "cccccccc", "F8": "ffffffff", "D4": "dddd", "G8": "gggggggg"}
-var names = []string{"A3", "B5", "C8", "F8", "D4", "G8"}
+var contents = map[string]string{"A3": "aaa", "B5": "bbbbb", "C8": "cccccccc", "F8": "ffffffff", "D4": "dddd", "G8": "gggggggg", "H8": "hhhhhhhh", "I8": "iiiiiiii", "J8": "jjjjjjjj"}
+var names = []string{"A3", "B5", "C8", "F8", "D4", "G8", "H8", "I8", "J8"}
 
 func geometry(hier bool) lstore.Geometry {
 	g := lstore.Geometry{SectorSize: 4, SectorsPerBlock: 2, Old: 1, Current: 1, New: 1, Spare: 1, Persistent: true, Hierarchical: hier,
@@ -464,6 +464,83 @@ func faultScriptBody(g lstore.Geometry, script []string, lim lstore.CrashLimits)
 	}
 }
 
+// slowWriteBody: the client script with inserted syncer steps, each in its own thread, where a step's state
+// write may be slow: it stalls before creating or before renaming the state file, the client performs its
+// next operation meanwhile (a rotation that lands between the extraction of the state and its
+// acknowledgement), then the write completes. Every crash point of every distinct journal prefix.
+func slowWriteBody(g lstore.Geometry, script []string, lim lstore.CrashLimits, nchoices int) func() {
+	return func() {
+		med := lstore.NewMedia(g)
+		s := lstore.Open(g, med)
+		ctx := context.Background()
+		slowAt, stalled, pending := "", 0, 0
+		st := &stats{}
+		med.Dir.Slow = func(kind string) {
+			if slowAt != "" && kind == slowAt {
+				slowAt = ""
+				stalled++
+				vsched.YieldLow("slow-state-write")
+			}
+		}
+		var hist []string
+		step := func(name string, f func(), slow string) {
+			done := false
+			before := stalled
+			slowAt = slow
+			pending++
+			vsched.GoNamed(name, false, func() { f(); done = true; pending-- })
+			vsched.Block("await-step", false, func() bool { return done || stalled > before })
+			slowAt = ""
+			if done {
+				hist = append(hist, name)
+			} else {
+				hist = append(hist, name+"(state write stalled before "+slow+")")
+			}
+		}
+		for _, op := range script {
+			switch vsched.ChooseFree("choice", nchoices) {
+			case 1:
+				if s.PutWakeupReady() {
+					step("StepPut", func() { s.Syncer.ProcessBlockPut(ctx) }, "")
+				}
+			case 2:
+				if s.ReleaseWakeupReady() {
+					step("StepRelease", func() { s.Syncer.ProcessBlockRelease() }, "")
+				}
+			case 3:
+				if s.PutWakeupReady() {
+					step("StepPut", func() { s.Syncer.ProcessBlockPut(ctx) }, "rename")
+				}
+			case 4:
+				if s.ReleaseWakeupReady() {
+					step("StepRelease", func() { s.Syncer.ProcessBlockRelease() }, "rename")
+				}
+			case 5:
+				if s.PutWakeupReady() {
+					step("StepPut", func() { s.Syncer.ProcessBlockPut(ctx) }, "create")
+				}
+			case 6:
+				if s.ReleaseWakeupReady() {
+					step("StepRelease", func() { s.Syncer.ProcessBlockRelease() }, "create")
+				}
+			}
+			hist = append(hist, op)
+			o := obj(g, op[3:])
+			err := s.PutOK(o.Digest, o.Content)
+			vsched.Obs("%s=%s", op, status.Code(err))
+			// a stalled state write spans exactly this one client operation
+			vsched.Block("await-stalled-steps", false, func() bool { return pending == 0 })
+			// the process dies here; every issued I/O operation survives (lost writes are the other families'
+			// business: what matters here is which blocks the state file on the medium lists)
+			c := med.Clone()
+			c.Data.Gates, c.Dir.Gates, c.Dir.Slow = false, false, nil
+			verify(g, c, fmt.Sprintf("history %v, process crash (nothing lost)", hist), lim, st, false)
+			s.Reactivate() // the first run goes on
+		}
+		report(st)
+	}
+}
+
 func opNames(ops []string, c []int) []string {
 	out := make([]string, len(c))
 	for i, k := range c {
@@ -537,6 +614,12 @@ func main() {
 		g := geometry(false)
 		g.SectorsPerBlock = x.spb
 		scs = append(scs, mc.Scenario{Name: "faults/" + x.name, Space: fmt.Sprintf("client script %v with every insertion of {nothing, ProcessBlockPut step, ProcessBlockRelease step} before each operation, each step in its own thread, at most one failing I/O operation (data sync or any state-directory operation; the client continues while the step sleeps before its retry); every crash point of every distinct journal prefix; media: full product up to %d, else deviation %d; on %s", x.script, slim.FullProductMax, slim.Deviation, g), Bound: 1, ShardDepth: 2, Body: faultScriptBody(g, x.script, slim), Budget: time.Duration(ev.Pick(r, 150, 1800)) * time.Second, MaxSteps: 2000000000})
+	}
+	{
+		g := geometry(false)
+		g.Old, g.Spare = 0, 2
+		sc := []string{"PutC8", "PutF8", "PutG8", "PutH8", "PutI8", "PutJ8"}
+		scs = append(scs, mc.Scenario{Name: "slow-writes/rotation", Space: fmt.Sprintf("client script %v (every upload rotates: old=0) with every insertion of {nothing, ProcessBlockPut step, ProcessBlockRelease step, either of them with its state write stalled before renaming (thorough: or before creating) the state file while the next client operation runs} before each operation; after every client operation a process crash in which nothing is lost (the medium as it is), recovery, fresh uploads, second restart; on %s", sc, g), Bound: 0, ShardDepth: 2, Body: slowWriteBody(g, sc, slim, ev.Pick(r, 5, 7)), Budget: time.Duration(ev.Pick(r, 150, 1800)) * time.Second, MaxSteps: 2000000000})
 	}
 	mc.Run(r, scs)
 	r.Finish()
